@@ -184,7 +184,7 @@ def profile(saslver_type_keys=()):
         'QXmppIncomingClient': 'QXmppIncomingClient', 'QXmppIncomingClientPrivate': 'QXmppIncomingClientPrivate',
         'std::unique_ptr<QXmppIncomingClientPrivate>': 'QXmppIncomingClientPrivate*',
         'std::unique_ptr<QXmppSaslServer>': 'QXmppSaslServer*', 'QXmppSaslServer': 'QXmppSaslServer',
-        'QXmppSaslServer::Response': 'int', 'QCryptographicHash::Algorithm': 'int', 'QXmppPasswordReply::Error': 'int', 'QXmppIq::Type': 'int',
+        'QXmppSaslServer::Response': 'int', 'QCryptographicHash::Algorithm': 'int', 'QAbstractSocket::SocketState': 'int', 'QXmppPasswordReply::Error': 'int', 'QXmppIq::Type': 'int',
         'QXmppSaslServerPlain': 'QXmppSaslServer', 'QXmppSaslServerAnonymous': 'QXmppSaslServer', 'QList<QByteArray>': 'QBytesList',
         'QTimer': 'QTimer', 'QSslSocket': 'QSslSocket', 'XmppSocket': 'XmppSocket', PRIV + 'XmppSocket': 'XmppSocket',
         'QXmppPasswordChecker': 'QXmppPasswordChecker', 'QXmppPasswordRequest': 'QXmppPasswordRequest', 'QXmppPasswordReply': 'QXmppPasswordReply',
@@ -215,6 +215,9 @@ def profile(saslver_type_keys=()):
         'QTimer::interval/0': ('fn', 'QTimer_interval'),
         'QTimer::start/0': ('fn', 'QTimer_start'),
         'QSslSocket::flush/0': ('fn', 'QSslSocket_flush'),
+        'QSslSocket::state/0': ('expr', '({0})->state'),
+        'QXmppIncomingClient::isConnected/0': ('callee', 'QXmppIncomingClient_isConnected'),
+        'XmppSocket::isConnected/0': ('callee', 'XmppSocket_isConnected'),
         'QSslSocket::startServerEncryption/0': ('fn', 'QSslSocket_startServerEncryption'),
         'qstr::operator QString/0': ('arg', 0),
         'qstr::toUtf8/0': ('fn', 'qstr_toUtf8'),
